@@ -1676,3 +1676,56 @@ Proof.
   apply (wsumv_ext n r1 r2 Hn (proj1 (G1 (fun _ => 0))) (proj1 (G2 (fun _ => 0)))).
   intros w. rewrite (proj2 (G1 w)), (proj2 (G2 w)). reflexivity.
 Qed.
+
+(* ------------------------------------------------------------------ *)
+(* voltage.svd_denoise_npx: per-collection wrapper                     *)
+(* ------------------------------------------------------------------ *)
+Lemma select_nth {A} (d : A) (coll : list Z) : forall (data : list A) (i : nat),
+  length data = length coll -> (i < length coll)%nat ->
+  nth (length (filter (fun c => c =? nth i coll 0) (firstn i coll))) (select coll data (nth i coll 0)) d
+  = nth i data d.
+Proof.
+  induction coll as [|c coll IH]; intros data i Hl Hi; [cbn in Hi; lia|].
+  destruct data as [|a data]; [discriminate|]. injection Hl as Hl.
+  destruct i as [|i].
+  - cbn [nth firstn filter length]. rewrite select_cons, Z.eqb_refl. reflexivity.
+  - cbn [nth firstn filter]. rewrite select_cons. cbn [length] in Hi.
+    destruct (Z.eqb_spec c (nth i coll 0)) as [E|E]; cbn [length nth]; apply IH; (exact Hl || lia).
+Qed.
+
+(* the wrapper returns its input whenever the per-collection reconstruction does, whatever the
+   collection vector; in general row i is taken from the result of ITS collection at its position *)
+Theorem svd_npx_identity {A} (d : A) (f : Z -> list A -> list A) (data : list A) (coll : list Z) (rank : Z) :
+  length data = length coll ->
+  (forall g, In g coll ->
+     let rows := select coll data g in
+     f (svd_rank rank (Z.of_nat (length coll)) (Z.of_nat (length rows))) rows = rows) ->
+  svd_npx d f data coll rank = data.
+Proof.
+  intros Hl Hf. unfold svd_npx. apply nth_ext with (d := d) (d' := d); [now rewrite map_length, seq_length|].
+  intros i Hi. rewrite map_length, seq_length in Hi.
+  rewrite (nth_indep _ d ((fun i => nth (length (filter (fun c => c =? nth i coll 0) (firstn i coll)))
+     (f (svd_rank rank (Z.of_nat (length coll)) (Z.of_nat (length (select coll data (nth i coll 0)))))
+        (select coll data (nth i coll 0))) d) 0%nat)) by (rewrite map_length, seq_length; exact Hi).
+  rewrite (map_nth (fun i => nth (length (filter (fun c => c =? nth i coll 0) (firstn i coll)))
+     (f (svd_rank rank (Z.of_nat (length coll)) (Z.of_nat (length (select coll data (nth i coll 0)))))
+        (select coll data (nth i coll 0))) d)), seq_nth by exact Hi. cbn [plus].
+  rewrite (Hf (nth i coll 0)) by (apply nth_In; exact Hi). apply select_nth; assumption.
+Qed.
+
+(* the per-collection ranks: full requested rank (rank >= nc) gives every collection its full size *)
+Lemma svd_rank_full rank nc size : 0 < nc -> 0 <= size -> nc <= rank -> size <= svd_rank rank nc size.
+Proof.
+  intros Hn Hs Hr. unfold svd_rank. destruct (Z.eqb_spec rank 0); [lia|].
+  apply Z.div_le_lower_bound; nia.
+Qed.
+
+(* the groups partition the traces: sizes add up to nc *)
+Lemma svd_groups_partition coll rank :
+  zsum (map (fun g => Z.of_nat (length (fst g))) (svd_groups coll rank)) = Z.of_nat (length coll).
+Proof.
+  unfold svd_groups. rewrite map_map. cbn [fst].
+  rewrite (zsum_map_ext _ (fun g => count_eq g coll)).
+  - apply fold_total; [apply sorted_nodup, uniq_sorted_sorted | intros x Hx; now apply uniq_sorted_in].
+  - intros g _. apply select_length. now rewrite zrange_length.
+Qed.
